@@ -353,7 +353,7 @@ pub fn check_main(prop: &Property, tier: Tier) -> i32 {
                 .args(["worker", &id, tier.name(), &deadline_ms.to_string()])
                 .stdin(Stdio::piped())
                 .stdout(Stdio::piped())
-                .stderr(Stdio::inherit())
+                .stderr(if std::env::var_os("VERIF_SHOW_PANICS").is_some() { Stdio::inherit() } else { Stdio::null() })
                 .spawn()
             {
                 Ok(c) => c,
